@@ -999,6 +999,60 @@ pub proof fn lemma_escape_props(p: Seq<char>)
     }
 }
 
+// the split step of the round trip, --tag form: "BLAKE3 (" + file + ") = " + hex splits into (hex, file)
+pub proof fn lemma_split_line_tag(fs: Seq<char>, hx: Seq<char>)
+    requires
+        hx.len() == 64,
+        forall|i: int| 0 <= i < 64 ==> (#[trigger] hx[i]) != ')',
+    ensures
+        sp_split_line(sp_tag_prefix() + fs + sp_tag_sep() + hx) == Some((hx, fs)),
+{
+    let body = sp_tag_prefix() + fs + sp_tag_sep() + hx;
+    let rest = fs + sp_tag_sep() + hx;
+    assert(body =~= sp_tag_prefix() + rest);
+    assert(body.skip(8) =~= rest);
+    assert(body.subrange(0, 8) =~= sp_tag_prefix());
+    assert(sp_occurs_at(body, sp_tag_prefix(), 0));
+    assert forall|j: int| fs.len() < j implies !sp_occurs_at(rest, sp_tag_sep(), j) by {
+        if sp_occurs_at(rest, sp_tag_sep(), j) {
+            // rest[j] would have to be ')' but lies in " = <hex>"
+            assert(rest.subrange(j, j + 4)[0] == ')');
+            assert(rest[j] == ')');
+            if j < fs.len() + 4 {
+                assert(rest[j] == sp_tag_sep()[j - fs.len()]);
+            } else {
+                assert(rest[j] == hx[j - fs.len() - 4]);
+            }
+        }
+    }
+    lemma_split_last_unique(rest, sp_tag_sep(), fs, hx);
+}
+
+// the split step of the round trip, plain form: hex + "  " + file splits into (hex, file)
+pub proof fn lemma_split_line_plain(fs: Seq<char>, hx: Seq<char>)
+    requires
+        hx.len() == 64,
+        forall|i: int| 0 <= i < 64 ==> (#[trigger] hx[i]) != ' ' && hx[i] != 'B',
+    ensures
+        sp_split_line(hx + sp_sep() + fs) == Some((hx, fs)),
+{
+    let body = hx + sp_sep() + fs;
+    assert(body[0] == hx[0]);
+    assert(!sp_occurs_at(body, sp_tag_prefix(), 0)) by {
+        if sp_occurs_at(body, sp_tag_prefix(), 0) {
+            assert(body.subrange(0, 8)[0] == 'B');
+        }
+    }
+    assert(sp_split_tagged(body) is None);
+    assert forall|j: int| 0 <= j < 64 implies !sp_occurs_at(body, sp_sep(), j) by {
+        if sp_occurs_at(body, sp_sep(), j) {
+            assert(body.subrange(j, j + 2)[0] == ' ');
+            assert(body[j] == hx[j]);
+        }
+    }
+    lemma_split_first_unique(body, sp_sep(), hx, fs);
+}
+
 // C13, round trip: every line b3sum prints for a path that is valid Unicode without U+FFFD / NUL (and not
 // empty) -- plain or --tag form, escaped or not, LF or CRLF terminated -- parses back to exactly that
 // path and hash.
@@ -1059,42 +1113,11 @@ pub proof fn lemma_roundtrip(p: Seq<char>, h: Seq<u8>, tag: bool, crlf: bool)
     }) =~= body);
     // 3. the split
     if tag {
-        let rest = fs + sp_tag_sep() + hx;
-        assert(body =~= sp_tag_prefix() + rest);
-        assert(body.skip(8) =~= rest);
-        assert(body.subrange(0, 8) =~= sp_tag_prefix());
-        assert(sp_occurs_at(body, sp_tag_prefix(), 0));
-        assert forall|j: int| fs.len() < j implies !sp_occurs_at(rest, sp_tag_sep(), j) by {
-            if sp_occurs_at(rest, sp_tag_sep(), j) {
-                // rest[j] would have to be ')' but lies in " = <hex>"
-                assert(rest.subrange(j, j + 4)[0] == ')');
-                assert(rest[j] == ')');
-                if j < fs.len() + 4 {
-                    assert(rest[j] == sp_tag_sep()[j - fs.len()]);
-                } else {
-                    assert(rest[j] == hx[j - fs.len() - 4]);
-                }
-            }
-        }
-        lemma_split_last_unique(rest, sp_tag_sep(), fs, hx);
-        assert(sp_split_line(body) == Some((hx, fs)));
+        lemma_split_line_tag(fs, hx);
     } else {
-        assert(body[0] == hx[0]);
-        assert(!sp_occurs_at(body, sp_tag_prefix(), 0)) by {
-            if sp_occurs_at(body, sp_tag_prefix(), 0) {
-                assert(body.subrange(0, 8)[0] == 'B');
-            }
-        }
-        assert(sp_split_tagged(body) is None);
-        assert forall|j: int| 0 <= j < 64 implies !sp_occurs_at(body, sp_sep(), j) by {
-            if sp_occurs_at(body, sp_sep(), j) {
-                assert(body.subrange(j, j + 2)[0] == ' ');
-                assert(body[j] == hx[j]);
-            }
-        }
-        lemma_split_first_unique(body, sp_sep(), hx, fs);
-        assert(sp_split_line(body) == Some((hx, fs)));
+        lemma_split_line_plain(fs, hx);
     }
+    assert(sp_split_line(body) == Some((hx, fs)));
     // 4. unescaping and the path checks
     if esc {
         assert(sp_unescape(fs) == Some(p));
